@@ -7,6 +7,13 @@ import sys
 HERE = os.path.dirname(os.path.dirname(os.path.abspath(__file__)))
 
 CHECKS = {
+    "C18": dict(
+        category="exploration",
+        technique="property-based execute-the-completion round trip (generated file names x typed prefixes x opening-quote styles, completed line executed through the real Execer with a recording alias) + Hypothesis string fuzzing of the completion-context analyser at every cursor position (atheris campaign in the thorough tier)",
+        text="Part A: a file or directory with a generated name (any POSIX-legal characters) is created next to decoy siblings, completions are obtained through the real Completer pipeline for a typed prefix in every quote style (none, ', \", r', triple, p', with and without the closing quote after the cursor), each candidate for that entry is spliced into the line as the completer reports and the line is executed: exactly one argument equal to the path must arrive. Part B: arbitrary strings x cursor positions through CompletionContextParser.parse: no exception, no hang (3 CPU-seconds), prefix/suffix/quote fields reproduce the text around the cursor, 0 <= arg_index <= len(args). 23 recorded defects with narrow predicates.",
+        note="Trusted: the recording alias as the reader of the inserted text; the candidate list need not be complete (only what is offered must mean the path); names that start a comment when typed bare and p-string expansions are out of domain; bash/man completer bridges are not exercised.",
+        design="2/C18",
+    ),
     "C19": dict(
         category="exploration",
         technique="stateful model-based testing (Hypothesis RuleBasedStateMachine, harness-owned clock via os.utime) + complete enumeration of truncation lengths of cache entries + child-process tier",
